@@ -49,6 +49,12 @@
 #define  PRICE_DEBUG 0
 
 
+/* Reference norms are only updated approximately and go stale after an edit of
+ * the problem; their floor PARAM_MIN_DNORM is zero in exact arithmetic, so a
+ * norm can reach zero there.  Never divide by a non-positive norm: price the
+ * candidate with the neutral weight one instead. */
+#define POSITIVE_NORM(n) (EGLPNUM_TYPENAME_EGlpNumIsGreatZero (n) ? (n) : EGLPNUM_TYPENAME_oneLpNum)
+
 static void update_d_scaleinf (
 	EGLPNUM_TYPENAME_price_info * const p,
 	EGLPNUM_TYPENAME_heap * const h,
@@ -1080,9 +1086,9 @@ static void update_d_scaleinf (
 		if (prule == QS_PRICE_PDANTZIG)
 			EGLPNUM_TYPENAME_EGlpNumCopy (p->d_scaleinf[j], inf);
 		else if (prule == QS_PRICE_PDEVEX)
-			EGLPNUM_TYPENAME_EGlpNumCopySqrOver (p->d_scaleinf[j], inf, p->pdinfo.norms[j]);
+			EGLPNUM_TYPENAME_EGlpNumCopySqrOver (p->d_scaleinf[j], inf, POSITIVE_NORM (p->pdinfo.norms[j]));
 		else if (prule == QS_PRICE_PSTEEP)
-			EGLPNUM_TYPENAME_EGlpNumCopySqrOver (p->d_scaleinf[j], inf, p->psinfo.norms[j]);
+			EGLPNUM_TYPENAME_EGlpNumCopySqrOver (p->d_scaleinf[j], inf, POSITIVE_NORM (p->psinfo.norms[j]));
 
 		if (h->hexist != 0)
 		{
@@ -1276,9 +1282,9 @@ static void update_p_scaleinf (
 		if (prule == QS_PRICE_DDANTZIG)
 			EGLPNUM_TYPENAME_EGlpNumCopy (p->p_scaleinf[i], inf);
 		else if (prule == QS_PRICE_DSTEEP)
-			EGLPNUM_TYPENAME_EGlpNumCopySqrOver (p->p_scaleinf[i], inf, p->dsinfo.norms[i]);
+			EGLPNUM_TYPENAME_EGlpNumCopySqrOver (p->p_scaleinf[i], inf, POSITIVE_NORM (p->dsinfo.norms[i]));
 		else if (prule == QS_PRICE_DDEVEX)
-			EGLPNUM_TYPENAME_EGlpNumCopySqrOver (p->p_scaleinf[i], inf, p->ddinfo.norms[i]);
+			EGLPNUM_TYPENAME_EGlpNumCopySqrOver (p->p_scaleinf[i], inf, POSITIVE_NORM (p->ddinfo.norms[i]));
 
 		if (h->hexist != 0)
 		{
